@@ -170,10 +170,20 @@ pub fn write_evidence(
         "wall_s": wall_s,
         "violations": violations,
     });
-    let _ = std::fs::create_dir_all(format!("{VERIF_DIR}/evidence"));
-    std::fs::write(
-        format!("{VERIF_DIR}/evidence/{}.json", a.property),
-        serde_json::to_string_pretty(&ev).unwrap(),
-    )
-    .unwrap();
+    std::fs::write(evidence_path(&a.property), serde_json::to_string_pretty(&ev).unwrap()).unwrap();
+}
+
+/// /verif/evidence/<id>.json, or /verif/evidence/parts/<id>.<part>.json when the check script
+/// runs several engines for one property (env VERIF_EVIDENCE_PART) and merges them afterwards.
+pub fn evidence_path(property: &str) -> String {
+    match std::env::var("VERIF_EVIDENCE_PART") {
+        Ok(part) if !part.is_empty() => {
+            let _ = std::fs::create_dir_all(format!("{VERIF_DIR}/evidence/parts"));
+            format!("{VERIF_DIR}/evidence/parts/{property}.{part}.json")
+        }
+        _ => {
+            let _ = std::fs::create_dir_all(format!("{VERIF_DIR}/evidence"));
+            format!("{VERIF_DIR}/evidence/{property}.json")
+        }
+    }
 }
